@@ -49,14 +49,30 @@ type Result struct {
 	Findings []Finding
 }
 
+// PreExec / PostExec are hooks run around every execution (used by the C12 lifecycle tracker).
+var (
+	PreExec  []func()
+	PostExec []func() []Finding
+)
+
 // Exec runs one execution of sc on the given choice prefix.
 func Exec(sc *Scenario, prefix []int, trace bool) *Result {
 	opt := sc.Opt
 	opt.Trace = trace
 	s := vrt.New(prefix, opt)
+	for _, f := range PreExec {
+		f()
+	}
 	check := sc.Body(s)
 	s.Run()
 	res := &Result{S: s}
+	defer func() {
+		vrt.S = s // hooks may record metrics of this execution
+		for _, f := range PostExec {
+			res.Findings = append(res.Findings, f()...)
+		}
+		vrt.S = nil
+	}()
 	if s.Diverged != "" {
 		res.Findings = append(res.Findings, Finding{"ENGINE/diverged", s.Diverged})
 		return res
